@@ -34,16 +34,19 @@ CHECKS = {
     ),
     "C19": (
         "exploration",
-        "online reference-model monitor over the real UdpManager's output stream",
+        "online reference-model monitor over the real UdpManager's output stream + socket-level monitor on a live worker",
         "DESIGN.md section 3 C19",
         "Seeded ~2000-step histories (client/backend datagrams, immediate/late/stale/duplicate backend resolutions, virtual "
         "clock with an emulated shell timer, cap changes below the live count, cluster reconfiguration incl. affinity flips, "
         "drain, abort, close_all, PPv2 modes, request/response limits) on the real sans-io UdpManager; every Output is folded "
         "online into a flow model written from the statement (stickiness, isolation, integrity, cap, exactly-once teardown); "
-        "violating histories are shrunk by delta debugging. Held on the histories explored.",
+        "violating histories are shrunk by delta debugging. Part (b): real UDP sockets through a live worker (bursts mixing "
+        "new and established sources, full-table windows, idle expiry, cap shrink, runtime reconfiguration, PPv2): "
+        "stickiness per flow, replies only to the asking socket, byte equality/no duplicates/order, cap and teardown "
+        "judged at the sockets and on the hook footprint. Held on the histories explored.",
         "Trusted: the model's reading of the documented choices (cap shrink never evicts; idle = no datagram in either "
-        "direction); behaviours the statement leaves open are counted as exempt_* (strict mode: --opt strict=1). The "
-        "socket shell lib/src/udp.rs is not driven by this part.",
+        "direction); behaviours the statement leaves open are counted as exempt_* (strict mode: --opt strict=1); datagram "
+        "drops alone are never judged; live cells are IPv4 only.",
     ),
     "C05": (
         "exploration",
@@ -100,13 +103,16 @@ CHECKS = {
     ),
     "C17": (
         "exploration",
-        "reference-resolver-model monitor on the real CertificateResolver (incl. rustls resolve path)",
-        "DESIGN.md section 3 C17 (part a)",
+        "reference-resolver-model monitor on the real CertificateResolver and on real TLS handshakes against a live worker",
+        "DESIGN.md section 3 C17",
         "Histories of add/remove/replace (valid, idempotent, 10 injected faults, name and expiry overrides) over a pool of 24 "
         "openssl-generated certificates; after every operation 66 probe names go through domain_lookup, names_for_sni, "
         "get_certificate and ResolvesServerCert::resolve (hand-built ClientHello) and are compared with a model written "
         "from the statement (loaded, covers, exact over wildcard, longest-lived, default only when nothing covers, failed "
-        "operations change nothing). Live-handshake part (b) not included yet.",
+        "operations change nothing). Part (b): the same histories sent as commands to a live worker, every probe name "
+        "answered by a REAL handshake (leaf identified by SHA-256 of its DER), handshakes hammered while a replace is in "
+        "flight (never the default for a name covered before and after), and strict-SNI cross-name requests over H1/TLS "
+        "and H2/TLS with 8 authority forms must never reach the recording backend.",
         "Trusted: openssl-reported names/expiry in fixtures/C17/index.json; probes the statement leaves open (expiry "
         "ties, non-canonical bytes, trailing dot via rustls) are exempt and counted.",
     ),
